@@ -87,6 +87,20 @@ def gen_program(rng, idx):
         actions += [lambda r, orf=orf: [('print', call(orf, r.choice([('nil',), I(r.randint(1, 9))])))],
                     lambda r, h=h: [('print', call(h, r.choice([('nil',), I(r.randint(1, 9))])))],
                     lambda r, dflt=dflt: [('asg', dflt, None, ('bin', '+', V(dflt), I(1)))]]
+    # a captured variable of FUNCTION type re-assigned by modify to another instance of the same literal
+    if rng.random() < 0.5:
+        mkc = 'mkc%d' % idx
+        prog.append(('asg', mkc, None, fn([('start', 'int')], ('fn', (), 'int'), [
+            ('asg', 'c', None, V('start')),
+            ('asg', 'tick', None, fn([], 'int', [('mod', 'c', ('bin', '+', V('c'), I(1))), ('ret', V('c'))])),
+            ('ret', V('tick'))])))
+        cur = 'cur%d' % idx
+        prog.append(('asg', cur, None, call(mkc, I(0))))
+        prog.append(('asg', 'reset%d' % idx, None, fn([('s', 'int')], None, [('mod', cur, call(mkc, V('s')))])))
+        prog.append(('asg', 'use%d' % idx, None, fn([], 'int', [('ret', call(cur))])))
+        actions += [lambda r, idx=idx: [('print', call('use%d' % idx))],
+                    lambda r, cur=cur: [('print', call(cur))],
+                    lambda r, idx=idx: [('expr', call('reset%d' % idx, I(r.choice([100, 200]))))]]
     for _ in range(rng.randint(4, 12)):
         prog += rng.choice(actions)(rng)
     # passing a closure as an argument
